@@ -141,12 +141,12 @@ class AddrModel(object):
     def history_class(self, name):
         """minimal structural class of what Tor said about `name` so far.  First match wins:
           error-on-live-name  some <error> event (anywhere in the history) hit a live mapping
-          error-on-new-name   the latest event is <error> for a name that was not mapped
           never-after-finite  some NEVER mapping (anywhere in the history) replaced a live finite one
+          error-on-new-name   the latest event is <error> for a name that was not mapped
         then, over the current chain (= the events since the name last went from unmapped
         to mapped, i.e. from the latest event that arrived while the name was not mapped):
-          update-shorter      an update moved a live finite expiry to an earlier time
           expiry>=24h         a finite mapping lay 24 h or more after its event
+          update-shorter      an update moved a live finite expiry to an earlier time
           subsecond-clock     a finite future mapping arrived at a fractional clock reading
           update / new-name   anything else
         """
@@ -156,16 +156,16 @@ class AddrModel(object):
         h = n.history
         if any(a == ERROR and w for (_, w, _, a, _) in h):
             return "error-on-live-name"
-        if h[-1][3] == ERROR:
-            return "error-on-new-name"
         if any(w and a != ERROR and e is None and p not in (None, "dead") for (_, w, p, a, e) in h):
             return "never-after-finite"
+        if h[-1][3] == ERROR:
+            return "error-on-new-name"
         start = max(i for i, ev in enumerate(h) if not ev[1])
         c = h[start:]
-        if any(w and e is not None and p not in (None, "dead") and e < p for (_, w, p, a, e) in c):
-            return "update-shorter"
         if any(e is not None and e - t0 >= 86400 for (t0, _, _, a, e) in c):
             return "expiry>=24h"
+        if any(w and e is not None and p not in (None, "dead") and e < p for (_, w, p, a, e) in c):
+            return "update-shorter"
         if any(e is not None and e > t0 and t0 != int(t0) for (t0, _, _, a, e) in c):
             return "subsecond-clock"
         if len(c) > 1:
